@@ -130,6 +130,32 @@ def gen_sequence(rng, profile):
     return D, ops
 
 
+def gen_samecount(rng):
+    """query; change WHICH pixels are stored but not HOW MANY; query again (a cache keyed by size would go stale)"""
+    D = rng.choice([2, 3, 4, 5, 6])
+    n = 12 * 4 ** D
+    base = sorted(rng.sample(range(n), rng.randint(4, 24)))
+    k = rng.randint(1, min(6, len(base)))
+    out = rng.sample(base, k)
+    rest = [p for p in range(n) if p not in set(base)]
+    inn = rng.sample(rest, k)
+    probes = list(base) + inn + [rng.randrange(n) for _ in range(4)]
+    rng.shuffle(probes)
+    ops = [{'op': rng.choice(['AddPixels', 'AddShape']), 'd': D, 'ps': base}, {'op': 'Within', 'qs': probes}]
+    if rng.random() < 0.5:
+        ops.append({'op': 'SymDiff', 'o': {'depth': D, 'cells': [(D, p) for p in out + inn]}})
+    else:
+        ops.append({'op': 'Without', 'o': {'depth': D, 'cells': [(D, p) for p in out]}})
+        if rng.random() < 0.4:
+            ops.append({'op': 'SaveLoad'})
+        ops.append({'op': 'Union', 'o': {'depth': D, 'cells': [(D, p) for p in inn]}, 'renorm': rng.random() < 0.7})
+    if rng.random() < 0.3:
+        ops.append({'op': rng.choice(['SaveLoad', 'GetArea', 'Uniq'])})
+    ops.append({'op': 'Within', 'qs': probes})
+    ops.append({'op': 'GetDemoted'})
+    return D, ops
+
+
 def cost(D, ops):
     """number of deepest-level pixels the history touches (the list model is quadratic in it)"""
     n = 0
@@ -209,6 +235,9 @@ def all_cases(ctx):
             trip = rng.sample(trip, 250)
         for seq in trip:
             cases.append((f'exhaustive-D{D}-L3' if not quick else f'sampled-D{D}-L3', D, list(seq)))
+    for _ in range(60 if quick else 800):
+        D, ops = gen_samecount(rng)
+        cases.append(('same-count', D, ops))
     for prof, n in (('small', 150 if quick else 2500), ('mid', 120 if quick else 2000), ('deep', 40 if quick else 600)):
         for _ in range(n):
             D, ops = gen_bounded(rng, prof)
